@@ -210,7 +210,8 @@ def replay_c20(failure, tier):
 
 replay_c20.what = ('system-call trace (strace) of get/touch/set/put/ensure through a plain, a sharded and a stacked cache (plain writer, three plain readers, checker) over '
                    'directories holding 3 and 1500 entries (0/10/100/2000 in the thorough tier), maintenance not firing: identical call counts, no lock or sleep call, at most '
-                   '2 (3 with a checker) descriptors at once, none left open, <= 2 open attempts per directory for a lookup, put/set onto an entry with an extra hard link completes')
+                   '2 (3 with a checker) descriptors at once, none left open, <= 2 open attempts per directory for a lookup, put/set onto an entry with an extra hard link completes, '
+                   'set / put of a source path that does not exist return (an error) within five seconds with the same call counts whatever the directory size')
 
 
 def replay_c03(failure, tier):
@@ -281,7 +282,7 @@ def replay_c06(failure, tier):
 replay_c06.what = 'see replay_c20.what; plus: a file that maintenance has listed vanishes before it is examined (ENOENT injected into the stat of each directory entry in turn): the write must still succeed'
 replay_c05.what = ('an adversary that deletes the PUBLISHED entry of the key at every point of set / put / get / touch / ensure / Replace (strace -P <entry> -e inject=…:error=ENOENT, '
                    'from the i-th call that names the entry on; rename and link onto the name still work): the operation must still succeed (a lookup reports a miss, a touch '
-                   'absence, a write completes); and a file that maintenance has listed vanishes before it is examined')
+                   'absence, a write completes); and a file that maintenance has listed, in the cache directory or among stale files of its temporary subdirectory, vanishes before it is examined (ENOENT into the stat of each listed item in turn)')
 
 
 def thorough_c05(tier):
@@ -522,7 +523,7 @@ for _p in PROPS:
                                                                      'violation with a concrete failing input, never an OK.')
 
 replay_c06.what = replay_c20.what + ('; plus: a file that maintenance has listed vanishes before it is examined (ENOENT injected into the stat of each directory entry in turn, '
-                                     'also for a direct raw_cache::prune): the operation must still succeed')
+                                     'also for a direct raw_cache::prune and for stale files in .kismet_temp): the operation must still succeed; and set / put of a source path that does not exist must return an error within five seconds (in-process watchdog)')
 replay_c03.what = replay_c18.what + ('; plus the system-call trace of the C20 search, which compares set / ensure / put through a cache from a builder reused after take() with '
                                      'the same calls through a cache from a fresh builder (the flush before publication must be there)')
 
